@@ -92,12 +92,18 @@ def _impl_spec_array(fs, dtype='int64'):
 
 
 def _impl_specli(c):
+    """the call is made twice: the answer (an ID or a refusal) must not depend on the same arguments having been seen before"""
     from pydl.pydlutils.sdss import sdss_specobjid
-    try:
-        r = sdss_specobjid(c['plate'], c['fiber'], c['mjd'], c['run2d'], line=c.get('line'), index=c.get('index'))
-        return {'ok': int(np.atleast_1d(r)[0])}
-    except Exception as e:
-        return {'err': core.exc_kind(e)}
+    outs = []
+    for _ in range(2):
+        try:
+            r = sdss_specobjid(c['plate'], c['fiber'], c['mjd'], c['run2d'], line=c.get('line'), index=c.get('index'))
+            outs.append({'ok': int(np.atleast_1d(r)[0])})
+        except Exception as e:
+            outs.append({'err': core.exc_kind(e)})
+    if outs[0] != outs[1]:
+        return {'second-call-differs': outs}
+    return outs[0]
 
 
 def _impl_unspec(vs, as_str):
